@@ -109,7 +109,13 @@ def gen_competition(rng):
     e = d + datetime.timedelta(days=rng.choice([1, 2, 5, 25, 28, 29, 30, 31]))
     lines.append(Line(e, t, "BUY", rng.choice(["20", "50", "80", "200"]), rng.choice(PRICE), "GBP", rng.choice(FEES)))
     if rng.random() < 0.7:
+        if rng.random() < 0.3: lines.append(Line(e, "BBB", "BUY", "1", "1", "GBP", None))
         lines.append(Line(e, t, "SELL", rng.choice(["5", "20", "60"]), rng.choice(PRICE), "GBP", rng.choice(FEES)))
+        if rng.random() < 0.4:      # buy / sell / buy within the day, at another price
+            lines.append(Line(e, t, "BUY", rng.choice(["10", "40", "25"]), rng.choice(PRICE), "GBP", rng.choice(FEES)))
+        if rng.random() < 0.2:      # a second, separate sale row the same day
+            lines.append(Line(e, "BBB", "BUY", "2", "1", "GBP", None))
+            lines.append(Line(e, t, "SELL", rng.choice(["5", "10"]), rng.choice(PRICE), "GBP", None))
     if rng.random() < 0.5:
         e2 = e + datetime.timedelta(days=rng.choice([1, 3, 10]))
         lines.append(Line(e2, t, "BUY", rng.choice(["10", "40"]), rng.choice(PRICE), "GBP", None))
